@@ -376,7 +376,7 @@ func genFloat(t *rapid.T) FloatCase {
 			b = 0x7f7fffff
 		}
 		// 2^63 and 2^64 were excluded while finding F22 (knownFloatTokenBound) was open;
-		// it is repaired in /repo (fix: 36cb831), so the two values are generated again.
+		// it is repaired in /repo (fix: c1d2c0c), so the two values are generated again.
 		if neg {
 			b |= 1 << 31
 		}
@@ -411,7 +411,7 @@ func genFloat(t *rapid.T) FloatCase {
 	if b >= 0x7ff0000000000000 {
 		b = 0x7fefffffffffffff
 	}
-	// 2^63 and 2^64 are generated again since finding F22 was repaired (fix: 36cb831).
+	// 2^63 and 2^64 are generated again since finding F22 was repaired (fix: c1d2c0c).
 	if neg {
 		b |= 1 << 63
 	}
